@@ -69,7 +69,41 @@ def configs(tier, seed):
         if part:
           cfgs.append(dict(name='%s/list%d/%d' % (ht, li, s), hash_type=ht, nodes=[list(x) for x in nodes],
                            histories=part, check_fresh=(s == 0)))
+    for (rf, retries, ncache, nttl) in ((1, 0, 0, 0), (2, 0, 1000, 0), (1, 1, 50, 600)):
+      cfgs.append(dict(name='%s/manager/rf%d-r%d-c%d' % (ht, rf, retries, ncache), mode='manager', hash_type=ht, rf=rf, retries=retries, ncache=ncache, nttl=nttl))
   return cfgs
+
+
+def run_manager(cfg, res):
+  """The relay as a whole under DYNAMIC_ROUTER: destinations go down and come back (connection failures, reconnects); every
+  datapoint must be handed to exactly the destinations the live router names (which the histories above compare with a
+  freshly started relay), whatever the relay may remember about earlier routing decisions."""
+  from vlib import relayharness as rh
+  ht = cfg['hash_type']
+  dests = [('127.0.0.1', 2004, 'a'), ('127.0.0.2', 2004, 'b'), ('127.0.0.3', 2004, 'c'), ('127.0.0.1', 2104, 'd')]
+  rl = rh.boot_relay({'RELAY_METHOD': 'consistent-hashing', 'ROUTER_HASH_TYPE': ht, 'DESTINATIONS': ', '.join('%s:%d:%s' % d for d in dests),
+                      'DYNAMIC_ROUTER': True, 'DYNAMIC_ROUTER_MAX_RETRIES': cfg['retries'], 'REPLICATION_FACTOR': cfg['rf'],
+                      'CACHE_METRIC_NAMES_MAX': cfg['ncache'], 'CACHE_METRIC_NAMES_TTL': cfg['nttl'], 'MAX_QUEUE_SIZE': 1000, 'USE_FLOW_CONTROL': False})
+  r = gen.rng(cfg['seed'], 'C06m', cfg['name'])
+  weights = dict(arrive=10, conn_made=3, conn_lost=1.5, conn_failed=2.5, adv_next=3, adv_defer=2, adv_60=0.3)
+  names = list(weights)
+  for case in range(40 if cfg['tier'] == 'quick' else 400):
+    nd = r.choice([2, 3, 4])
+    s = rh.Seq(rl.ns, dests[:nd])
+    # a small name alphabet: the same series are routed again and again across membership changes
+    s.name_of = lambda ident: 'series%d' % (ident % 5)
+    for _ in range(r.randint(30, 120)):
+      s.apply(r.choices(names, [weights[x] for x in names])[0], r.randrange(nd))
+      if s.violations:
+        break
+    res.count('manager_sequences')
+    res.count('manager_routing_evaluations', s.counters.get('routing_evaluations', 0))
+    res.count('manager_membership_changes', sum(1 for e, _ in s.log if e in ('conn_failed', 'conn_made')))
+    for sig, msg in s.violations[:2]:
+      if sig.startswith('routing/'):
+        res.violation('iii/manager/' + sig, '%s [%s rf=%d retries=%d name cache %d/%d] events=%r' % (msg, ht, cfg['rf'], cfg['retries'], cfg['ncache'], cfg['nttl'], s.log[-40:]),
+                      dict(events=s.log, cfg=cfg), case=dict(events=s.log))
+    res.case(repr(s.log), nontrivial=True)
 
 
 def sweep(ring, table):
@@ -80,6 +114,8 @@ def sweep(ring, table):
 
 
 def run_config(cfg, res):
+  if cfg.get('mode') == 'manager':
+    return run_manager(cfg, res)
   from vlib import boot
   from vlib.refs import ring as refring
   ht = cfg['hash_type']
